@@ -206,6 +206,21 @@ def incarnation(req):
         rep["ok"] = False
         rep["error"] = f"{type(e).__name__}: {e}"[:500]
         rep["trace"] = traceback.format_exc()[-1500:]
+    # a RELOAD inside this process: the source is replaced and the namespace imported again, so the cache is rewritten
+    # by a compiler running in a process that already holds an older version of the namespace (REPL development)
+    rl = req.get("reload")
+    if rl and rep["ok"]:
+        try:
+            with open(rl["path"], "w") as f:
+                f.write(rl["text"])
+            os.utime(rl["path"], (rl["mtime"], rl["mtime"]))
+            path.append("reload")
+            importlib.reload(sys.modules[modname])
+            rep["reloaded"] = True
+        except BaseException as e:  # noqa: BLE001
+            rep["ok"] = False
+            rep["error"] = f"reload failed: {type(e).__name__}: {e}"[:500]
+            rep["trace"] = traceback.format_exc()[-1500:]
     rep["path"] = path
     rep["edited"] = bool(edited)
     rep["effects"] = list(fx.effects)
